@@ -329,12 +329,13 @@ def check_C13(tier, seed):
                       'and the two conventions agree when varphi = phi + nu(phi) and the B20 interpolants agree. Helicity: on the hand-written quadrant model '
                       '(evaluated inside Coq on the sign pattern of real objects and compared with the code every run) the counter is a multiple of 4 '
                       '(helicity is an integer), is negated by mirror and by reversal, is rotation invariant and equals 4*(signed 4->1 crossings). '
-                      'NOT proved: that the quadrant counter equals the geometric winding number of the continuous normal (needs a resolved grid); '
-                      'spline interpolation error off the nodes.',
-                      gprops=False, seq_obligations=['props/C13_spec.v', 'props/C13.v'], theory_obligations=['Quadrant'], ncorr=(8 if tier == 'quick' else 48),
+                      'theories/Winding.v (axiom-free): on a RESOLVED grid -- lifted quadrant indices exist whose consecutive values differ by at most one and which close after w turns -- the counter equals 4 w exactly, '
+                      'so helicity = sG spsi w is the winding number; steps of a continuous angle smaller than a quarter turn give such a lift (floor_step). '
+                      'NOT proved: that a given grid is resolved (checked numerically against an unwrapped-angle winding number); spline interpolation error off the nodes.',
+                      gprops=False, seq_obligations=['props/C13_spec.v', 'props/C13.v'], theory_obligations=['Quadrant', 'Winding'], ncorr=(8 if tier == 'quick' else 48),
                       theorems=['C13_untwist_r1', 'C13_untwist_r2', 'C13_untwist_r3', 'C13_untwist_id_r1', 'C13_untwist_id_r2', 'C13_untwist_id_r3',
                                 'C13_bmag_r1_cyl', 'C13_bmag_r1_boozer', 'C13_bmag_r2_cyl', 'C13_bmag_r2_boozer', 'C13_cyl_boozer_r2', 'C13_iotaN',
-                                'Quadrant.counter_mod4', 'Quadrant.counter_mirror', 'Quadrant.counter_reverse', 'Quadrant.counter_winding', 'Quadrant.counter_rotate'])
+                                'Quadrant.counter_mod4', 'Quadrant.counter_mirror', 'Quadrant.counter_reverse', 'Quadrant.counter_winding', 'Quadrant.counter_rotate', 'Winding.counter_is_winding', 'Winding.helicity_is_winding', 'Winding.floor_step'])
 
 
 def check_C09(tier, seed):
@@ -495,7 +496,7 @@ def check_C10(tier, seed):
 # hand-written theories each check depends on (others are not built, so work in progress elsewhere cannot disturb it)
 NEEDS = {
     'C08': ['Expr', 'Equiv', 'Dim'], 'C07': ['Expr', 'Equiv', 'Sign', 'Shift', 'Shallow', 'DiffMat'], 'C05': ['Expr', 'Equiv', 'Sign', 'Shift', 'Shallow', 'DiffMat'],
-    'C04': ['Expr', 'Shallow'], 'C11': ['Expr', 'Shallow'], 'C13': ['Expr', 'Shallow', 'Quadrant'], 'C19': ['Expr', 'Equiv', 'Dim', 'Sign'], 'C17': ['Expr', 'Effects'], 'C12': ['Expr', 'Equiv', 'Dim', 'Sign', 'Shallow', 'RootSelect'], 'C16': ['Expr', 'Effects', 'ObjModel'], 'C09': ['Expr', 'Shallow', 'Pipeline'], 'C03': ['Expr', 'Shallow', 'Pipeline'], 'C06': ['Expr', 'Equiv', 'Sign', 'Shift', 'Replicate', 'DiffMat', 'TrigSum', 'DiffKernel', 'Bracket', 'InterpKernel'], 'C14': ['Expr', 'Shallow', 'TrigSum'], 'C15': ['Expr', 'Shallow', 'TrigSum', 'VmecEmit'], 'C18': ['Expr', 'ObjModel'], 'C10': ['Expr', 'Shallow'], 'C01': ['Expr', 'Shallow', 'Series'], 'C02': ['Expr', 'Shallow', 'Newton'],
+    'C04': ['Expr', 'Shallow'], 'C11': ['Expr', 'Shallow'], 'C13': ['Expr', 'Shallow', 'Quadrant', 'Winding'], 'C19': ['Expr', 'Equiv', 'Dim', 'Sign'], 'C17': ['Expr', 'Effects'], 'C12': ['Expr', 'Equiv', 'Dim', 'Sign', 'Shallow', 'RootSelect'], 'C16': ['Expr', 'Effects', 'ObjModel'], 'C09': ['Expr', 'Shallow', 'Pipeline'], 'C03': ['Expr', 'Shallow', 'Pipeline'], 'C06': ['Expr', 'Equiv', 'Sign', 'Shift', 'Replicate', 'DiffMat', 'TrigSum', 'DiffKernel', 'Bracket', 'InterpKernel'], 'C14': ['Expr', 'Shallow', 'TrigSum'], 'C15': ['Expr', 'Shallow', 'TrigSum', 'VmecEmit'], 'C18': ['Expr', 'ObjModel'], 'C10': ['Expr', 'Shallow'], 'C01': ['Expr', 'Shallow', 'Series'], 'C02': ['Expr', 'Shallow', 'Newton'],
     'C20': ['Expr', 'Equiv', 'Sign', 'Shift', 'Replicate', 'DiffMat', 'Newton', 'Bracket', 'TrigSum', 'DiffKernel', 'InterpKernel', 'EvenKernel'],
 }
 CHECKS = {'C10': check_C10, 'C06': check_C06, 'C14': check_C14, 'C15': check_C15, 'C18': check_C18, 'C12': check_C12, 'C16': check_C16, 'C17': check_C17, 'C03': check_C03, 'C19': check_C19, 'C09': check_C09, 'C13': check_C13, 'C11': check_C11, 'C02': check_C02, 'C20': check_C20, 'C04': check_C04, 'C08': check_C08, 'C07': check_C07, 'C05': check_C05}
